@@ -711,7 +711,7 @@ func main() {
 			mx := mn * (8 + dur(r, 0, 2000))
 			ini := dur(r, mn, mx)
 			period := dur(r, 2*mn, mx/2)
-			out.Line("mloop %d %d %d %d %d %d", mn, ini, mx, period, dur(r, 0, period-1), 300)
+			out.Line("mloop %d %d %d %d %d %d", mn, ini, mx, period, dur(r, 0, period-1), 600)
 		}
 	}
 	if only == "pred" {
